@@ -3,7 +3,7 @@
 against the current /repo HEAD (so that they keep applying when /repo moves by unrelated commits).
    /venv/bin/python docs/tie_tests/T14/make_diffs.py
 m* = semantic mutations (the check must report VIOLATION), h* = harmless edits (must stay quiet);
-h1 / h2 are copies of /verif/seeded/harmless/H2-2 and H4-1."""
+h1 / h2 are copies of /verif/seeded/harmless/H2-2 and H4-1, h7 of the second-round refactoring H5/harmless_2."""
 import difflib
 import os
 import subprocess
@@ -103,6 +103,63 @@ EDITS = {
         filenames[i] = str(name) + ".txt"
 
     return filenames[1:]
+""")],
+    "m21_table_loop_pairs_folder_with_wrong_counter": [(SAVE, """    folder = os.path.join(base_directory, "Alpha")
+
+    if not save_indexed_counters(folder, pcfg_parser.count_alpha, encoding):
+        return False
+
+    ## Save Capitalization Masks
+    #
+    folder = os.path.join(base_directory, "Capitalization")
+
+    if not save_indexed_counters(folder, pcfg_parser.count_alpha_masks, encoding):
+        return False
+
+    ## Save Digits
+    #
+    folder = os.path.join(base_directory, "Digits")
+
+    if not save_indexed_counters(folder, pcfg_parser.count_digits, encoding):
+        return False
+
+    ## Save Other
+    #
+    folder = os.path.join(base_directory, "Other")
+
+    if not save_indexed_counters(folder, pcfg_parser.count_other, encoding):
+        return False
+""", """    length_indexed = [
+        ("Alpha", pcfg_parser.count_alpha),
+        ("Capitalization", pcfg_parser.count_alpha_masks),
+        ("Digits", pcfg_parser.count_other),
+        ("Other", pcfg_parser.count_digits),
+    ]
+    for folder_name, counter_list in length_indexed:
+        folder = os.path.join(base_directory, folder_name)
+
+        if not save_indexed_counters(folder, counter_list, encoding):
+            return False
+""")],
+    "m22_counter_store_adds_two": [(PRINCE, """        count_prince[item[1]] += 1
+""", """        count_prince[item[1]] = count_prince[item[1]] + 2
+""")],
+    "m23_table_loop_returns_after_first_folder": [(SAVE, """    folder = os.path.join(base_directory, "Alpha")
+
+    if not save_indexed_counters(folder, pcfg_parser.count_alpha, encoding):
+        return False
+
+    ## Save Capitalization Masks
+    #
+    folder = os.path.join(base_directory, "Capitalization")
+
+    if not save_indexed_counters(folder, pcfg_parser.count_alpha_masks, encoding):
+        return False
+""", """    for folder_name, counter_list in [("Alpha", pcfg_parser.count_alpha), ("Capitalization", pcfg_parser.count_alpha_masks)]:
+        folder = os.path.join(base_directory, folder_name)
+
+        if save_indexed_counters(folder, counter_list, encoding):
+            return True
 """)],
     # ---------------- harmless edits
     "h6_write_via_local_line": [(SAVE, """            for item in prob_list:
